@@ -281,6 +281,9 @@ func (fg *FuncGen) declareResults(v *ssa.Call, sig *types.Signature) []TTerm {
 		if w := fg.g.WF(t, name); w != "" {
 			fg.emit("(assert %s)", w)
 		}
+		if srt == "Val" {
+			fg.emit("(assert (=> c18.ih (val.finite %s)))", name)
+		}
 		rs = append(rs, TTerm{S: name, Sort: srt, T: t})
 	}
 	return rs
